@@ -91,6 +91,22 @@ CLAIMS.update({
                     "Require closure and mutual-Remove exclusivity hold after every step.",
             "note": MK_NOTE + " Bounded histories only (depth 2 quick / 3 thorough for small schemas): active sets that need longer histories are outside the claim.",
             "technique": TECH_FORK, "design_ref": "DESIGN.md A.4 / section 4 (C19)"},
+    "C18": {"text": "Kernel: the real add()/remove() pipe closures (flat and non-flat, local and non-local target) are executed for every toggle history of bounded length "
+                    "with each forked delivery scheduled at a symbolic point (before a later toggle or at quiescence, any order): at quiescence the target must be active "
+                    "exactly when the source is, and the closures never block. Reordering of forked deliveries is a known finding, reproduced natively by gating the stub target.",
+            "note": "Partial: the target is a recording stub of am.Api; Bind* assembly, BindAny and network consumers are outside the claim. Trusted: go/ssa, symgo, z3.",
+            "technique": TECH_FORK, "design_ref": "DESIGN.md section 4 (C18)"},
+    "C15": {"text": "Partial (state groups only): the shipped supervisor, worker, client and bootstrap schemas of pkg/node/states, dumped from the current source, are driven "
+                    "through the real mutation path for every history of two single-state mutations from the empty machine with symbolic choices; no two members of a "
+                    "mutually-Removing group (pool status, pool normalisation, work status) are ever active together and Require closure holds.",
+            "note": "The pool-size gates, error-kill threshold and worker map bookkeeping of the supervisor handlers are NOT encoded (they need the supervisor struct with its "
+                    "RPC / process plumbing); histories longer than two mutations are outside the bound. Trusted: go/ssa, symgo, z3.",
+            "technique": TECH_FORK, "design_ref": "DESIGN.md A.4 (C15)"},
+    "C17": {"text": "In-memory history kernel executed path by path: the real tracer.TransitionEnd (match rules, TrackRejected, checks never tracked, rotation at MaxRecords, "
+                    "tracked times = time after) on constructed transitions, and the real Memory.FindLatest / ValidateQuery / Match against a reference predicate (exactly the "
+                    "matching records, newest first, truncated at the limit). The state-condition defects found in FindLatest were repaired (fix: 6390ea9).",
+            "note": "Partial: persistent backends, crash points, Export/Import, MTime ranges are outside the claim. Trusted: go/ssa, symgo, z3.",
+            "technique": TECH_FORK, "design_ref": "DESIGN.md section 4 (C17)"},
 })
 
 NA = {
